@@ -55,6 +55,27 @@ class SpecObj:
         return "SpecObj(%s)" % ", ".join("%s=%r" % kv for kv in sorted(self.__dict__.items()) if not callable(kv[1]))
 
 
+class Inst(SpecObj):
+    """a stand-in for an instance of a (repo or builtin) class: `isinstance` and `hasattr` on it are decided from the
+    class hierarchy and the attributes given by the rule"""
+
+    def __init__(self, cls, **kw):
+        SpecObj.__init__(self, **kw)
+        self.__dict__["_cls"] = cls
+
+    def __repr__(self):
+        return "Inst(%s)" % self._cls
+
+    def __str__(self):
+        return self.__dict__.get("_str") or repr(self)
+
+    def __eq__(self, other):
+        return self is other
+
+    def __hash__(self):
+        return hash(("inst", self._cls))
+
+
 def refine(ex, test_ast, env, label):
     """environment on the `label` edge of a test that evaluated to UNKNOWN: a bare variable
     (or `not var`) test teaches its truthiness"""
@@ -76,6 +97,11 @@ PURE_METHODS = {"lower", "upper", "strip", "lstrip", "rstrip", "startswith", "en
                 "split", "isdigit", "isnumeric", "isdecimal", "find", "get", "keys", "items", "values", "count",
                 "join", "encode", "decode", "replace", "partition", "rpartition", "rsplit", "title", "isalpha", "isalnum",
                 "isspace", "isupper", "islower", "rfind", "index", "zfill", "hex", "capitalize", "swapcase"}
+
+
+def _is_builtin_class(name):
+    import builtins
+    return isinstance(getattr(builtins, name, None), type) and issubclass(getattr(builtins, name), BaseException)
 
 
 class Outcome:
@@ -124,6 +150,10 @@ class Explorer:
     def _ev(self, e, env, k):
         if isinstance(e, ast.Constant):
             return e.value
+        if isinstance(e, (ast.Name, ast.Attribute)) and k is not None and (self.repo.has_cls(k) or k in ("ssl.SSLError",) or
+                                                                           (isinstance(e, ast.Name) and k == e.id and k not in self.func.locals and _is_builtin_class(k))):
+            from .index import ClassRef
+            return ClassRef(self.repo.canonical(k))
         if isinstance(e, (ast.Name, ast.Attribute)) and k is not None and k.startswith("gunicorn."):
             # module-level / class-level constant of the repository (folded, never executed)
             try:
@@ -327,6 +357,10 @@ class Explorer:
                     return l - r
                 if isinstance(e.op, ast.Mult):
                     return l * r
+                if isinstance(e.op, ast.Mod) and isinstance(l, (str, bytes)) and not isinstance(r, (SpecObj, _Refined)):
+                    return l % r
+                if isinstance(e.op, ast.Mod) and isinstance(l, str) and isinstance(r, SpecObj):
+                    return l % (str(r),)
                 if isinstance(l, int) and isinstance(r, int) and not isinstance(l, bool) and not isinstance(r, bool):
                     if isinstance(e.op, ast.RShift):
                         return l >> r
@@ -386,9 +420,22 @@ class Explorer:
                     return {"len": len, "str": str, "bool": bool, "int": int, "min": min, "max": max}[e.func.id](*args)
                 except Exception:
                     return UNKNOWN
+            if isinstance(e.func, ast.Name) and e.func.id == "hasattr" and len(e.args) == 2:
+                v = self.ev(e.args[0], env)
+                nm = self.ev(e.args[1], env)
+                if isinstance(v, Inst) and isinstance(nm, str):
+                    return nm in v.__dict__ and not nm.startswith("_")
+                return UNKNOWN
             if isinstance(e.func, ast.Name) and e.func.id == "isinstance" and len(e.args) == 2:
                 v = self.ev(e.args[0], env)
                 if v is UNKNOWN:
+                    return UNKNOWN
+                if isinstance(v, Inst):
+                    from .index import ClassRef
+                    t = self.ev(e.args[1], env)
+                    ts = t if isinstance(t, tuple) else (t,)
+                    if ts and all(isinstance(x, ClassRef) for x in ts):
+                        return any(self.repo.is_subclass(v._cls, x.q) for x in ts)
                     return UNKNOWN
                 tn = ast.unparse(e.args[1])
                 types = {"tuple": tuple, "str": str, "bytes": bytes, "int": int, "list": list, "dict": dict}
@@ -456,6 +503,17 @@ class Explorer:
             val = None
             new = None
             for t in st.targets:
+                if isinstance(t, (ast.Tuple, ast.List)) and not isinstance(st.value, (ast.Tuple, ast.List)):
+                    # unpacking of a computed sequence (`a, b = entry`)
+                    whole = self.ev(st.value, env)
+                    pairs = list(_bind(t, whole if isinstance(whole, (tuple, list)) else UNKNOWN))
+                    for tt, v in pairs:
+                        k = self.key_of(tt) if not isinstance(tt, ast.Starred) else None
+                        if k is not None and k not in self.frozen and (k in env or k in self.tracked):
+                            if new is None:
+                                new = dict(env)
+                            new[k] = v
+                    continue
                 for (tt, vv) in _pairs(t, st.value):
                     k = self.key_of(tt)
                     if k is not None and k not in self.frozen and (k in env or k in self.tracked):
